@@ -101,6 +101,7 @@ def run(configs=None, widths=None):
             j = json.loads(p.stdout)
             runs += j["runs"]; parsed = j["files"]
             for f in j["failures"]:
+                if f["kind"] not in PROP_OF: continue      # the option-specific oracles of the corpus mode (call parentheses, sorting) are not used here
                 iid, src, syn = byfile[f["file"]]
                 k = key(src, syn, f["kind"], opts)
                 if k in seen: continue          # one entry per (input, oracle): the first configuration and width that fail
